@@ -33,6 +33,14 @@ def replay(rec):
         for name, obs, pred in (('C16.a:der%d' % sc['order'], float(dv), rec['value']), ('C16.a:e', float(ev), rec['e_value'])):
             if isbad(pred): res.append((name, 'inconclusive', ''))
             else: res.append((name, 'ok' if close(obs, pred) else 'mismatch', 'obs=%r pred=%s' % (obs, Fr(*pred))))
+        # der() of an expression that mentions a control is documented to raise -- also next to explicit time
+        if sc['e'] == 'd6' and sc['order'] == 1 and sc['seed'] % 3 == 2:
+            b3 = quiet(build, rec['decl'], None, False)
+            for name, mk in (('t*u', lambda: b3.ocp.t * b3.u[0]), ('x*u', lambda: b3.x[0] * b3.u[0]), ('t*t+u', lambda: b3.ocp.t ** 2 + b3.u[0])):
+                try:
+                    quiet(b3.ocp.der, mk()); res.append(('C16.b:reject:' + name, 'mismatch', 'der(%s) returned silently' % name))
+                except Exception:
+                    res.append(('C16.b:reject:' + name, 'ok', ''))
         # control chains of order k: der walks down k members, the lowest is a control, one more raises
         if sc['e'] == 'd6' and sc['order'] == 1 and sc['seed'] % 3 == 1:
             for k in (1, 2, 3):
